@@ -58,6 +58,7 @@ func VerifyFunc(P *Program, DB *SpecDB, fn *ssa.Function, ct *Contract) (res *Fu
 	p2.setup(fn, key, ct)
 	p2.runTop()
 	script := &Script{Preamble: S.Preamble(), Lines: p2.lines}
+	opaqueFloats(script, p2.obls)
 	for _, o := range p2.obls {
 		o.Script = script
 	}
@@ -224,7 +225,7 @@ func (x *Exec) runTop() {
 				renv.witness = map[string]Val{}
 				x.lookupAtEnd = true
 				for _, wb := range wit {
-					renv.witness[wb.Name] = x.evalVal(renv, wb.E)
+					renv.witness[wb.Name] = x.evalWitness(renv, wb.E)
 				}
 				t := x.evalBool(renv, en.E)
 				x.lookupAtEnd = false
@@ -329,7 +330,7 @@ func (x *Exec) runTop() {
 			if wit, ok := ct.Witness[en.Name]; ok {
 				renv.witness = map[string]Val{}
 				for _, wb := range wit {
-					renv.witness[wb.Name] = x.evalVal(renv, wb.E)
+					renv.witness[wb.Name] = x.evalWitness(renv, wb.E)
 				}
 			}
 			t := x.evalBool(renv, en.E)
